@@ -26,6 +26,7 @@ pub const NKEYS: usize = 8;
 pub const NPROVS: usize = 10;
 pub const TIMED_TAG: u64 = 9001;
 pub const KAD_TAG: u64 = 9002;
+pub const DEFAULTS_TAG: u64 = 9003;
 
 pub struct World {
     pub base: Instant,
@@ -550,6 +551,23 @@ fn run_any(w: &World, rt: &tokio::runtime::Runtime, c: &[u64]) -> (Vec<u64>, Vec
     let r = catch_unwind(AssertUnwindSafe(|| match c.first() {
         Some(&TIMED_TAG) => run_timed(w, c).map(|t| (c.to_vec(), t)),
         Some(&KAD_TAG) => crate::c17_kad::run(w, c),
+        Some(&DEFAULTS_TAG) if c.len() == 1 => {
+            // the compiled defaults, against the constants the translator reads from config.rs
+            let d = MemoryStoreConfig::default();
+            Some((
+                c.to_vec(),
+                vec![
+                    4,
+                    d.max_records as u64,
+                    d.max_record_size_bytes as u64,
+                    d.max_provider_keys as u64,
+                    d.max_provider_addresses as u64,
+                    d.max_providers_per_key as u64,
+                    d.provider_refresh_interval.as_secs(),
+                    d.provider_ttl.as_secs(),
+                ],
+            ))
+        }
         _ => {
             let _g = rt.enter();
             run_case(w, c).map(|t| (c.to_vec(), t))
@@ -590,6 +608,8 @@ pub fn main(args: &Args) {
     if args.str("replay").is_some() {
         return;
     }
+    let (c, t) = run_any(&w, &rt, &[DEFAULTS_TAG]);
+    out.emit(&c, &t);
     let only = args.str("kind");
     for _ in 0..ncases {
         let mut r = rng.fork();
